@@ -84,4 +84,4 @@ def run(ctx, replay=None):
     # 3. replay into the real parser
     ctx.go_test("c11", run="TestReplay$", env={"VERIF_CASES": cases, "VERIF_CONCAT": cc}, timeout=3000, name="c11replay")
     # 4. oracle-free laws on the corpus and on seeded mutations, all twelve entry points
-    ctx.go_test("c11", run="TestLaws$", env={"VERIF_C11_MUTS": ctx.pick(150, 3000)}, timeout=3000, name="c11laws")
+    ctx.go_test("c11", run="TestLaws$", env={"VERIF_C11_MUTS": ctx.pick(150, 8000)}, timeout=3000, name="c11laws")
